@@ -2,10 +2,11 @@
    Only property theorems (closed by [exact]), assumption reports and examples.
    Models: Model/SecretConn.v (p2p/secret_connection.go, ideal authenticated encryption),
    Model/MConn.v (p2p/connection.go Channel), Model/Admission.v (p2p/switch.go, p2p/peer.go,
-   angine.go authByCA). *)
+   angine.go authByCA), Model/AdmitHist.v (the same decision as a state machine over the life of a
+   node whose validator set changes). *)
 From Coq Require Import List NArith ZArith Lia Bool.
-From AnnVerif Require Import Base.Res Base.Bytes Model.SecretConn Model.MConn Model.Admission
-  Proofs.SecretConnProofs Proofs.MConnProofs.
+From AnnVerif Require Import Base.Res Base.Bytes Model.SecretConn Model.MConn Model.Admission Model.AdmitHist
+  Proofs.SecretConnProofs Proofs.MConnProofs Proofs.AdmitHistProofs.
 Import ListNotations.
 
 (* (1) over an untampered wire, for ANY sizes of writes and ANY positive read-buffer sizes, no
@@ -77,6 +78,37 @@ Theorem c20_admission_matrix :
   forallb (fun i => Bool.eqb (match admission i with PeerAdmitted => true | _ => false end) (rule i)) all_inputs = true.
 Proof. exact admission_matrix. Qed.
 Print Assumptions c20_admission_matrix.
+
+(* (5) admission over histories: whatever validator-set changes and handshakes a node has seen, a
+   peer is admitted only if, under the validator set in force at the moment of its handshake, it
+   is not refused, announced the key it authenticated with, is not the node itself and - where
+   certificate-authority admission is on - is a validator exempt from it or holds a certificate
+   made by a key that is an authority in that set; and earlier decisions have no bearing on later
+   ones (a run after a prefix is the run from the set in force) *)
+Theorem c20_history_admission_sound :
+  forall c evs vs0 vs h, In (vs, h, PeerAdmitted) (arun c vs0 evs) ->
+  (exists pre post, evs = pre ++ AHandshake h :: post /\ vs = vals_after vs0 pre) /\
+  refused c (h_auth h) = false /\ h_announced h = h_auth h /\ h_announced h <> ac_self c /\
+  (ac_auth_by_ca c = true ->
+     (is_val vs (h_announced h) = true /\ ac_nonval_auth c = false) \/
+     (exists s, h_cert h = CertBy s /\ is_ca vs s = true)).
+Proof. exact history_admission_sound. Qed.
+Print Assumptions c20_history_admission_sound.
+
+Theorem c20_history_is_forgotten :
+  forall c pre evs vs0, arun c vs0 (pre ++ evs) = arun c vs0 pre ++ arun c (vals_after vs0 pre) evs.
+Proof. exact history_is_forgotten. Qed.
+Print Assumptions c20_history_is_forgotten.
+
+(* non-vacuity: a peer certified by authority [9] is admitted; [9] stays a validator but loses its
+   authority; the same handshake is refused from then on *)
+Example c20_history_nonvacuous :
+  let c := mkACfg true true [1%N] [] in
+  let h := mkHs [5%N] [5%N] (CertBy [9%N]) in
+  map snd (arun c [] [ASetVals [mkCV [9%N] true; mkCV [8%N] false]; AHandshake h;
+                      ASetVals [mkCV [9%N] false; mkCV [8%N] true]; AHandshake h])
+  = [PeerAdmitted; RejCA].
+Proof. vm_compute. reflexivity. Qed.
 
 (* ---- non-vacuity ---- *)
 Example c20_nonvacuous :
